@@ -61,8 +61,9 @@ def cpu_flags():
 class Cfg:
     """One build configuration."""
 
-    def __init__(self, isa='sse2', std='14', opt='O2', cxx='g++', san=None, checks=False, macros=(), extra=()):
+    def __init__(self, isa='sse2', std='14', opt='O2', cxx='g++', san=None, checks=False, macros=(), extra=(), only_tus=None):
         self.isa, self.std, self.opt, self.cxx, self.san, self.checks = isa, std, opt, cxx, san, checks
+        self.only_tus = only_tus        # optional glob on the TU name: configurations known to reject everything build a small subset only
         self.macros = tuple(macros)
         self.extra = tuple(extra)
 
@@ -399,7 +400,7 @@ def build_and_run(work, tu, cfg, seed, compile_timeout, case_timeout, keep=False
 
 def run_matrix(work, tus, cfgs, seed, compile_timeout=900, case_timeout=60, log=None):
     """All (TU, cfg) pairs on a memory-aware pool. Returns list of events."""
-    jobs = [(tu, cfg) for cfg in cfgs for tu in tus if not tu.only_cfgs or fnmatch.fnmatchcase(cfg.name, tu.only_cfgs)]
+    jobs = [(tu, cfg) for cfg in cfgs for tu in tus if (not tu.only_cfgs or fnmatch.fnmatchcase(cfg.name, tu.only_cfgs)) and (not cfg.only_tus or fnmatch.fnmatchcase(tu.name, cfg.only_tus))]
     # heavy TUs first
     jobs.sort(key=lambda j: (-j[0].weight, 0 if j[1].san else 1))     # long poles (heavy TUs, sanitizer builds) first
     events = []
@@ -506,7 +507,7 @@ def judge(prop, events, findings, hooks=None):
             res.rejected.append(e)
             if reject_ok(e):
                 continue
-            mode, wit = 'rejected', e.get('diag', '')
+            mode, wit = 'rejected:' + re.sub(r'[^A-Za-z0-9 _<>:,.()-]', '', e.get('diag', ''))[:70], e.get('diag', '')
         else:
             v = vio_fn(e)
             if v is None:
@@ -555,7 +556,7 @@ def replay(path):
         p = subprocess.run([rec['cxx']] + flags + [src, '-o', exe], stdout=subprocess.PIPE, stderr=subprocess.PIPE, text=True)
         if p.returncode != 0:
             print('replay: case is rejected by the compiler: ' + first_error(p.stderr))
-            if rec['mode'] == 'rejected':
+            if rec['mode'].startswith('rejected'):
                 print('VIOLATION property=%s replay=%s' % (prop, path))
                 return 1
             return 2
